@@ -5,6 +5,7 @@ D=${D:-/var/tmp/rv-dev}
 mkdir -p $D
 rm -rf $D/src $D/tests; git -C /repo archive HEAD | tar -x -C $D
 mkdir -p $D/.cargo; printf '[net]\noffline = true\n' > $D/.cargo/config.toml
+python3 -c "import sys; sys.path.insert(0,'/verif'); from vlib import weave; print([e['applied'] for e in weave.inject_attrs('$D')])"
 for f in /verif/contracts/*.kani.rs; do b=$(basename $f .kani.rs); cat $f >> $D/src/$b.rs; done
 cd $D
 H=""
